@@ -258,7 +258,12 @@ pub fn emit_roundtrip(out: &mut Out, ety: u64, transport: u64, rk: u64, c: u64, 
             1 => { let t: TooDee<i64> = TooDee::from_vec(cu, ru, (0..n as i64).map(|i| if i % 2 == 0 { -i * 1_000_000_007 } else { i64::MAX - i }).collect()); report(&t, roundtrip(&t, transport), &mut obs); }
             2 => { let t: TooDee<String> = TooDee::from_vec(cu, ru, strings(n, c + r)); report(&t, roundtrip(&t, transport), &mut obs); }
             3 => { let t: TooDee<Option<u8>> = TooDee::from_vec(cu, ru, (0..n).map(|i| if i % 3 == 0 { None } else { Some(i as u8) }).collect()); report(&t, roundtrip(&t, transport), &mut obs); }
-            _ => { let t: TooDee<Vec<u8>> = TooDee::from_vec(cu, ru, (0..n).map(|i| (0..(i % 4) as u8).collect()).collect()); report(&t, roundtrip(&t, transport), &mut obs); }
+            4 => { let t: TooDee<Vec<u8>> = TooDee::from_vec(cu, ru, (0..n).map(|i| (0..(i % 4) as u8).collect()).collect()); report(&t, roundtrip(&t, transport), &mut obs); }
+            // zero-sized cells, cells that are all empty sequences, 128-bit cells, float cells
+            5 => { let t: TooDee<()> = TooDee::from_vec(cu, ru, vec![(); n]); report(&t, roundtrip(&t, transport), &mut obs); }
+            6 => { let t: TooDee<Vec<u32>> = TooDee::from_vec(cu, ru, vec![vec![]; n]); report(&t, roundtrip(&t, transport), &mut obs); }
+            7 => { let t: TooDee<i128> = TooDee::from_vec(cu, ru, (0..n as i128).map(|i| if i % 2 == 0 { -i * 1_000_000_007 } else { i64::MAX as i128 - i }).collect()   /* within i64: serde_json::Value holds no wider integers */); report(&t, roundtrip(&t, transport), &mut obs); }
+            _ => { let t: TooDee<f64> = TooDee::from_vec(cu, ru, (0..n).map(|i| i as f64 * 0.5 - 3.0).collect()   /* dyadic values: serde_json's default float parser is exact on them */); report(&t, roundtrip(&t, transport), &mut obs); }
         }
     }));
     if res.is_err() { obs.clear(); obs.push(2); }
@@ -271,7 +276,7 @@ pub fn gen_c18(out: &mut Out, tier: &str, _rng: &mut Rng) {
     for c in 1..=max { for r in 1..=max { shapes.push((c, r)); } }
     for (c, r) in shapes {
         for tr in 0..4 {
-            for ety in 0..5 { emit_roundtrip(out, ety, tr, 0, c, r, (0, 0, 0, 0)); }
+            for ety in 0..9 { emit_roundtrip(out, ety, tr, 0, c, r, (0, 0, 0, 0)); }
             for s0 in 0..=c { for e0 in s0..=c { for s1 in 0..=r { for e1 in s1..=r {
                 if tier == "quick" && (c * r > 9) && ((s0 + s1 + e0 + e1 + tr) % 4 != 0) { continue; }
                 for rk in [1, 2] { emit_roundtrip(out, 0, tr, rk, c, r, (s0, s1, e0, e1)); }
@@ -288,7 +293,7 @@ pub fn gen_c18_large(out: &mut Out, tier: &str) {
     for (c, r) in shapes {
         for tr in 0..4 {
             emit_roundtrip(out, 0, tr, 0, c, r, (0, 0, 0, 0));
-            if c * r <= 2000 { for ety in 1..5 { emit_roundtrip(out, ety, tr, 0, c, r, (0, 0, 0, 0)); } }
+            if c * r <= 2000 { for ety in 1..9 { emit_roundtrip(out, ety, tr, 0, c, r, (0, 0, 0, 0)); } }
             // the whole array as a view, and the largest interior window
             let mut wins = vec![(0, 0, c, r)];
             if c > 2 && r > 2 { wins.push((1, 1, c - 1, r - 1)); }
